@@ -17,7 +17,8 @@ PROPERTY = "C11"
 LEVEL = "fault_enumeration"
 RULE = (
     "Part 'crash-points': Hypothesis draws operands (rational and float polygons of every kind, incl. the mandatory "
-    "Connected-in-Simple containment reached directly and through the | and & short-cuts; small curved shapes), one "
+    "Connected-in-Simple containment reached directly and through the | and & short-cuts, and pairs of unbounded simple "
+    "shapes with nested / apart / crossing holes; small curved shapes), one "
     "non-mutating operation (| & - ^ ~, `in` for shape/curve/point, ==, float, integrals, box, copy, deepcopy, plot) "
     "and fractions that select crash points: a dry run under sys.settrace counts the Python calls made inside "
     "shapepy/pynurbs and marks those inside the dynamic extent of an in-place mutation (invert, split, clean, the "
@@ -29,7 +30,7 @@ RULE = (
     "Connected / Disjoint, rational and float: a call that raises must leave the control points bit-identical. "
     "Non-trivial: the fault fired inside the operation; faults inside a mutation window are counted separately."
 )
-MANDATORY = ["fired", "inside-mutation-window", "connected-in-simple", "op:binary", "op:in", "op:eq", "op:other", "invalid-arguments"]
+MANDATORY = ["fired", "inside-mutation-window", "connected-in-simple", "both-unbounded", "op:binary", "op:in", "op:eq", "op:other", "invalid-arguments"]
 
 OPS = ["|", "&", "-", "^", "~", "in", "jordan-in", "point-in", "eq", "float", "moment", "box", "copy", "deepcopy", "plot"]
 
@@ -105,6 +106,8 @@ def judge(ctx, case):
             strata.append("inside-mutation-window")
         if cis:
             strata.append("connected-in-simple")
+        if sa["k"] == "simple" and sb["k"] == "simple" and ca and cb and rg.curve_area(ca[0]) < 0 and rg.curve_area(cb[0]) < 0:
+            strata.append("both-unbounded")
         ctx.evaluated(sub, status.startswith("fired"), strata)
         ctx.count("status:" + status)
         if status == "not-reached":
@@ -217,6 +220,15 @@ def cases(draw, mode):
         big = draw(st.booleans())
         a = draw(S.simple_spec(nk, (1,), (0.0, 0.0), R * (2.6 if big else 0.8), False))
         base = {"a": a, "b": b, "op": draw(st.sampled_from(["in", "in", "|", "&", "-", "^"]))}
+    elif mode == "uu":
+        # two unbounded simple shapes whose holes are nested, apart or crossing:
+        # containment and the operators' short-cuts work on complements
+        nk = draw(st.sampled_from(["int", "frac", "float"]))
+        R = S.base_radius(nk)
+        a = draw(S.simple_spec(nk, (1,), (0.0, 0.0), R * draw(st.sampled_from([0.4, 1.0, 2.2])), True))
+        off = draw(st.sampled_from([(0.0, 0.0), (0.0, 0.0), (0.6 * R, 0.3 * R), (3.0 * R, 0.0)]))
+        b = draw(S.simple_spec(nk, (1,), off, R * draw(st.sampled_from([0.4, 1.0, 2.2])), True))
+        base = {"a": a, "b": b, "op": draw(st.sampled_from(["in", "in", "|", "&", "-", "^", "eq"]))}
     elif mode == "curved":
         base = draw(oc.operand_pair(True, kinds=["simple+", "simple+", "simple-"]))
         base = {"a": base["a"], "b": base["b"], "op": draw(st.sampled_from(["&", "|", "in", "eq", "point-in", "jordan-in"]))}
@@ -232,6 +244,7 @@ def parts(tier):
     return [
         Part("crash-points", judge, cases("any"), n=400 if q else 8000, budget_s=80 if q else 3000, shards=16),
         Part("connected-in-simple", judge, cases("cis"), n=160 if q else 3000, budget_s=80 if q else 3000, shards=16),
+        Part("unbounded-pairs", judge, cases("uu"), n=96 if q else 2000, budget_s=60 if q else 2000, shards=16),
         Part("crash-points-curved", judge, cases("curved"), n=32 if q else 300, budget_s=80 if q else 3000, shards=16),
         Part("invalid-arguments", judge_invalid, cases=_arg_grid, exhaustive=True),
     ]
